@@ -55,6 +55,12 @@ type State struct {
 	epoch    int      // bumped on every havoc of heaps/globals; names lazily created symbols
 	trace    []string // call-site trace for replay/debug
 	interior []interiorPtr
+	elemFacts []elemFact // assumed facts about every element of a slice returned by a library call
+}
+
+type elemFact struct {
+	slice string
+	tmpl  string
 }
 
 type interiorPtr struct {
@@ -118,6 +124,7 @@ func (s *State) clone() *State {
 	n.epoch = s.epoch
 	n.trace = append([]string{}, s.trace...)
 	n.interior = append([]interiorPtr{}, s.interior...)
+	n.elemFacts = append([]elemFact{}, s.elemFacts...)
 	return n
 }
 
